@@ -19,7 +19,11 @@ const prelude = `(declare-sort Str 0)
 (declare-sort Ref 0)
 (declare-datatypes ((Slice 0)) (((mk_slice (s_arr Ref) (s_off Int) (s_len Int)))))
 (declare-const nil Ref)
+(declare-fun birth (Ref) Int)
+(define-fun isalloc ((now Int) (r Ref)) Bool (< (birth r) now))
 (define-fun nilslice () Slice (mk_slice nil 0 0))
+(declare-fun idx (Slice Int) Int)
+(assert (forall ((s Slice) (i Int)) (! (= (idx s i) (+ (s_off s) i)) :pattern ((idx s i)))))
 (declare-fun slen (Str) Int)
 (declare-fun sconcat (Str Str) Str)
 (declare-fun ssub (Str Int Int) Str)
@@ -31,10 +35,17 @@ const prelude = `(declare-sort Str 0)
 (declare-fun godiv (Int Int) Int)
 (declare-fun gorem (Int Int) Int)
 (assert (forall ((s Str)) (! (>= (slen s) 0) :pattern ((slen s)))))
-(assert (forall ((a Str) (b Str)) (! (= (slen (sconcat a b)) (+ (slen a) (slen b))) :pattern ((sconcat a b)))))
-(assert (forall ((s Str) (i Int) (j Int)) (! (=> (and (<= 0 i) (<= i j) (<= j (slen s))) (= (slen (ssub s i j)) (- j i))) :pattern ((ssub s i j)))))
-(assert (forall ((a Int) (b Int)) (! (=> (and (>= a 0) (> b 0)) (and (= (godiv a b) (div a b)) (= (gorem a b) (mod a b)))) :pattern ((godiv a b)))))
 `
+
+// prelude axioms included only when the symbol occurs in the query (keeps
+// irrelevant quantifiers, in particular the non-linear div/mod one, out)
+var preludeOnDemand = []struct{ sym, axiom string }{
+	{"(sconcat ", "(assert (forall ((a Str) (b Str)) (! (= (slen (sconcat a b)) (+ (slen a) (slen b))) :pattern ((sconcat a b)))))"},
+	{"(ssub ", "(assert (forall ((s Str) (i Int) (j Int)) (! (=> (and (<= 0 i) (<= i j) (<= j (slen s))) (= (slen (ssub s i j)) (- j i))) :pattern ((ssub s i j)))))"},
+	{"(godiv ", "(assert (forall ((a Int) (b Int)) (! (=> (and (>= a 0) (> b 0)) (= (godiv a b) (div a b))) :pattern ((godiv a b)))))"},
+	{"(gorem ", "(assert (forall ((a Int) (b Int)) (! (=> (and (>= a 0) (> b 0)) (= (gorem a b) (mod a b))) :pattern ((gorem a b)))))"},
+}
+
 
 var litRe = regexp.MustCompile(`\|strx?:[^|]*\|`)
 
@@ -53,9 +64,9 @@ func (w *World) allocFacts(t string, T types.Type, allocTerm string) []string {
 	var out []string
 	switch u := T.Underlying().(type) {
 	case *types.Slice:
-		out = append(out, fmt.Sprintf("(or (= (s_arr %s) nil) (select %s (s_arr %s)))", t, allocTerm, t))
+		out = append(out, fmt.Sprintf("(or (= (s_arr %s) nil) (isalloc %s (s_arr %s)))", t, allocTerm, t))
 	case *types.Pointer, *types.Map, *types.Interface, *types.Signature, *types.Chan:
-		out = append(out, fmt.Sprintf("(or (= %s nil) (select %s %s))", t, allocTerm, t))
+		out = append(out, fmt.Sprintf("(or (= %s nil) (isalloc %s %s))", t, allocTerm, t))
 	case *types.Struct:
 		for i := 0; i < u.NumFields(); i++ {
 			out = append(out, w.allocFacts(w.structSel(T, i, t), u.Field(i).Type(), allocTerm)...)
@@ -94,11 +105,11 @@ func (o *Obligation) Script(forCVC5 bool) string {
 		switch {
 		case strings.HasPrefix(h, "F."), strings.HasPrefix(h, "C."):
 			if fs := w.allocFacts(fmt.Sprintf("(select %s r)", n), meta, alloc0); len(fs) > 0 {
-				fmt.Fprintf(&body, "(assert (forall ((r Ref)) (! (=> (select %s r) (and %s)) :pattern ((select %s r)))))\n", alloc0, strings.Join(fs, " "), n)
+				fmt.Fprintf(&body, "(assert (forall ((r Ref)) (! (=> (isalloc %s r) (and %s)) :pattern ((select %s r)))))\n", alloc0, strings.Join(fs, " "), n)
 			}
 		case strings.HasPrefix(h, "A."):
 			if fs := w.allocFacts(fmt.Sprintf("(select (select %s r) i)", n), meta, alloc0); len(fs) > 0 {
-				fmt.Fprintf(&body, "(assert (forall ((r Ref) (i Int)) (! (=> (select %s r) (and %s)) :pattern ((select (select %s r) i)))))\n", alloc0, strings.Join(fs, " "), n)
+				fmt.Fprintf(&body, "(assert (forall ((r Ref) (i Int)) (! (=> (isalloc %s r) (and %s)) :pattern ((select (select %s r) i)))))\n", alloc0, strings.Join(fs, " "), n)
 			}
 		case strings.HasPrefix(h, "MV."):
 			mt := meta.Underlying().(*types.Map)
@@ -107,17 +118,23 @@ func (o *Obligation) Script(forCVC5 bool) string {
 				continue
 			}
 			if fs := w.allocFacts(fmt.Sprintf("(select (select %s r) k)", n), mt.Elem(), alloc0); len(fs) > 0 {
-				fmt.Fprintf(&body, "(assert (forall ((r Ref) (k %s)) (! (=> (and (select %s r) (select (select %s r) k)) (and %s)) :pattern ((select (select %s r) k)))))\n",
+				fmt.Fprintf(&body, "(assert (forall ((r Ref) (k %s)) (! (=> (and (isalloc %s r) (select (select %s r) k)) (and %s)) :pattern ((select (select %s r) k)))))\n",
 					w.sortOf(mt.Key()), alloc0, md, strings.Join(fs, " "), n)
 			}
 		case strings.HasPrefix(h, "MD."):
 			mt := meta.Underlying().(*types.Map)
 			if w.sortOf(mt.Key()) == "Ref" {
-				fmt.Fprintf(&body, "(assert (forall ((r Ref) (k Ref)) (! (=> (and (select %s r) (select (select %s r) k)) (select %s k)) :pattern ((select (select %s r) k)))))\n", alloc0, n, alloc0, n)
+				fmt.Fprintf(&body, "(assert (forall ((r Ref) (k Ref)) (! (=> (and (isalloc %s r) (select (select %s r) k)) (isalloc %s k)) :pattern ((select (select %s r) k)))))\n", alloc0, n, alloc0, n)
 			}
 		}
 	}
-	for _, a := range e.asserts[:o.Prefix] {
+	// only assertions of blocks from which the obligation's block is reachable
+	// (back edges removed) matter: everything else is off every path to it
+	anc := e.ancestors(o.Block)
+	for i, a := range e.asserts[:o.Prefix] {
+		if anc != nil && e.assertBlk[i] != nil && !anc[e.assertBlk[i]] {
+			continue
+		}
 		fmt.Fprintf(&body, "(assert %s)\n", a)
 	}
 	fmt.Fprintf(&body, "(assert %s)\n(assert (not %s))\n", o.Reach, o.Goal)
@@ -129,6 +146,12 @@ func (o *Obligation) Script(forCVC5 bool) string {
 	}
 	fmt.Fprintf(&hdr, "; obligation %s\n; function %s segment %s\n; source: %s\n", o.Name, o.Fn, o.Segment, strings.ReplaceAll(o.Src, "\n", " "))
 	hdr.WriteString(prelude)
+	bodyStr := body.String()
+	for _, pa := range preludeOnDemand {
+		if strings.Contains(bodyStr, pa.sym) {
+			hdr.WriteString(pa.axiom + "\n")
+		}
+	}
 	for _, d := range w.dtDecls {
 		hdr.WriteString(d + "\n")
 	}
@@ -148,7 +171,9 @@ func (o *Obligation) Script(forCVC5 bool) string {
 	if len(ls) > 1 {
 		fmt.Fprintf(&hdr, "(assert (distinct %s))\n", strings.Join(ls, " "))
 	}
-	hdr.WriteString("(assert (forall ((s Str)) (! (=> (= (slen s) 0) (= s |str:|)) :pattern ((slen s)))))\n")
+	if strings.Contains(bodyStr, "(slen ") {
+		hdr.WriteString("(assert (forall ((s Str)) (! (=> (= (slen s) 0) (= s |str:|)) :pattern ((slen s)))))\n")
+	}
 	return hdr.String() + body.String() + "(check-sat)\n(get-model)\n"
 }
 
@@ -170,6 +195,10 @@ type OblResult struct {
 
 var solverCmds = map[string]func(file string, timeout int) []string{
 	"z3-new": func(f string, t int) []string { return []string{"z3-new", fmt.Sprintf("-T:%d", t), f} },
+	// same solver, legacy simplex core: an independent search strategy that is often much faster on these VCs
+	"z3-new/as2": func(f string, t int) []string {
+		return []string{"z3-new", fmt.Sprintf("-T:%d", t), "smt.arith.solver=2", f}
+	},
 	"z3":     func(f string, t int) []string { return []string{"z3", fmt.Sprintf("-T:%d", t), f} },
 	"cvc5":   func(f string, t int) []string { return []string{"cvc5", fmt.Sprintf("--tlimit=%d", t*1000), f} },
 }
@@ -216,7 +245,11 @@ func Discharge(obls []*Obligation, dir string, timeout int, thorough bool, jobs 
 					file = base + ".cvc5.smt2"
 					os.WriteFile(file, []byte(o.Script(true)), 0o644)
 				}
-				sr := runSolver(s, file, timeout)
+				to := timeout
+				if (s == "z3-new" || s == "cvc5") && !thorough && timeout >= 4 {
+					to = timeout / 2
+				}
+				sr := runSolver(s, file, to)
 				r.Attempts = append(r.Attempts, sr)
 				if sr.Result == "unsat" {
 					if r.By == "" {
@@ -238,7 +271,7 @@ func Discharge(obls []*Obligation, dir string, timeout int, thorough bool, jobs 
 				}
 			} else if thorough {
 				// all solvers are consulted; every definite answer must agree
-				for _, s := range []string{"z3-new", "z3", "cvc5"} {
+				for _, s := range []string{"z3-new", "z3-new/as2", "z3", "cvc5"} {
 					try(s)
 				}
 				for _, a := range r.Attempts {
@@ -252,7 +285,7 @@ func Discharge(obls []*Obligation, dir string, timeout int, thorough bool, jobs 
 					a := r.Attempts[len(r.Attempts)-1]
 					return a.Result == "sat" || a.Result == "unsat"
 				}
-				for _, s := range []string{"z3-new", "z3", "cvc5"} {
+				for _, s := range []string{"z3-new", "z3-new/as2", "z3", "cvc5"} {
 					try(s)
 					if definite() {
 						break
